@@ -16,7 +16,7 @@ import tlc, tlaval
 from c14 import edge_cover
 
 KINDS = ["SA", "CA", "ERR", "ABTs", "ABTc", "ACKs", "ACKc"]
-PROPS = ["ReplyMatches", "LateAndForeignIgnored", "NoDoubleIndication", "SameIdDifferentPeersIndependent", "NewRequestGetsFreshKey", "NewRequestIndicated"]
+PROPS = ["ReplyMatches", "LateAndForeignIgnored", "DirectionRespected", "NoDoubleIndication", "SameIdDifferentPeersIndependent", "NewRequestGetsFreshKey", "NewRequestIndicated"]
 INVS = ["IdUniquePerPeer", "ServerKeysUnique", "OutcomeMatches", "AtMostOneOutcomePerRequest"]
 
 
@@ -281,6 +281,11 @@ def main(tier, seed):
         t["tid"] = i + 1
     chk.sample({"start": traces[0]["start"], "first_ops": traces[0]["ops"][:15], "last_tables": {k: traces[0]["evs"][-1]["st"][k] for k in ("nextId", "ctab", "stab")}})
     validate(chk, traces, "{1, 2, 3, 4}", "T")
+    # one level up: ApplicationIOController matches an answer to the IOCB in flight toward its source address.  Several
+    # requests outstanding to one peer, unconfirmed traffic in between (IOQ.tla / Trace_IOQ, shared with C04): every finished
+    # IOCB holds the answer to its own request
+    import ioqcheck
+    ioqcheck.run_reply_matching(chk, rng, 120 if thorough else 25, only={"OutcomeOnlyFromReply"}, rename={"OutcomeOnlyFromReply": "ReplyMatches"})
     for m in PROPS + INVS:
         chk.monitor(m, chk.evaluations)
     return chk.finish()
@@ -290,6 +295,10 @@ def replay(path):
     body = json.load(open(path))
     rp = body["replay"]
     chk = Check("C11", "quick", body.get("seed", 0))
+    if rp.get("kind") == "iocb":
+        import ioqcheck
+        ioqcheck.replay(chk, rp)
+        return chk.finish()
     t = record(rp["start"], [tuple(o) for o in rp["ops"]])
     t["tid"] = 1
     for e in t["evs"][-10:]:
